@@ -14,6 +14,16 @@ import (
 
 func (x *Exec) step(f *frame, in ssa.Instruction) {
 	st := f.st
+	if len(x.aliases) > 0 && st != nil {
+		snap := x.aliasSnapshot(st)
+		defer func() {
+			if x.skipRecouple {
+				x.skipRecouple = false
+				return
+			}
+			x.recouple(st, snap, in)
+		}()
+	}
 	switch in := in.(type) {
 	case *ssa.Store:
 		av := x.val(in.Addr)
@@ -32,6 +42,10 @@ func (x *Exec) step(f *frame, in ssa.Instruction) {
 			x.abstract("store of interior pointer / closure to memory")
 			v = Val{T: x.havocValue(st, in.Val.Type(), "esc")}
 		}
+		if v.Cl != nil && a.Kind == aCell && len(a.Path) == 0 {
+			// local variable holding a closure: remember which one (as long as the cell keeps that value)
+			x.vals[cellAlias{a.Cell}] = v
+		}
 		if a.Kind != aCell {
 			x.critCheck(st, a, in.Pos())
 			x.frameCheck(st, a, in.Pos())
@@ -42,7 +56,7 @@ func (x *Exec) step(f *frame, in ssa.Instruction) {
 		if in.Op == token.MUL {
 			// load of a local holding a structural value
 			if pv := x.val(in.X); pv.A != nil && pv.A.Kind == aCell && len(pv.A.Path) == 0 {
-				if sv, ok := x.vals[cellAlias{pv.A.Cell}]; ok && st.cells[pv.A.Cell] == "0" {
+				if sv, ok := x.vals[cellAlias{pv.A.Cell}]; ok && (st.cells[pv.A.Cell] == "0" || sv.Cl != nil && sv.T != "" && st.cells[pv.A.Cell] == sv.T) {
 					x.vals[in] = sv
 					return
 				}
@@ -53,7 +67,7 @@ func (x *Exec) step(f *frame, in ssa.Instruction) {
 			return
 		}
 	case *ssa.Call:
-		x.vals[in] = x.call(f, in, in.Common())
+		x.callStep(f, in)
 		return
 	case *ssa.Defer:
 		x.deferred = append(x.deferred, in)
@@ -410,7 +424,7 @@ func (x *Exec) callWith(f *frame, in ssa.Instruction, c *ssa.CallCommon, args []
 		if v, ok := x.externFuncValue(f, in, c, args); ok {
 			return v
 		}
-		x.abstract("call through function value (havoc)")
+		x.abstract("call through function value (havoc) at " + x.shortPos(in.Pos()))
 		x.unknownEffect(st, in.Pos())
 		return x.resultVal(st, c.Signature(), "dyn")
 	}
